@@ -505,6 +505,65 @@ pub fn replay_flow(case: &Value, rep: &mut Report) {
                         }
                     }
                 }
+                if mode == "loop" {
+                    // the same network with every bias and the input scaled by 2^-30: all layers are positively homogeneous,
+                    // so every accumulation except the product scales with them -- the loop must not behave differently
+                    // for values far below any tolerance
+                    let sc = (2.0f64).powi(-30) as f32;
+                    let scaled_layers: Vec<Value> = layers
+                        .iter()
+                        .map(|l| {
+                            let mut l2 = l.clone();
+                            if let Some(b) = l2["params"].get("b").and_then(|b| b.as_array()).cloned() {
+                                l2["params"]["b"] = json!(b.iter().map(|v| num(v) * sc).collect::<Vec<f32>>());
+                            }
+                            l2
+                        })
+                        .collect();
+                    let xs_flat: Vec<f32> = flat(&x).iter().map(|v| v * sc).collect();
+                    let xs = match &x.data {
+                        neurons::tensor::Data::Single(_) => Tensor::single(xs_flat),
+                        _ => crate::tensors::triple_rowmajor(&data_dims(&x.data), &xs_flat),
+                    };
+                    let built = guarded(|| {
+                        let mut n2 = build_flow_net(case, &scaled_layers);
+                        for step in case["steps"].as_array().unwrap() {
+                            match str_of(step, "op") {
+                                "connect" => n2.connect(usize_of(step, "from") - 1, usize_of(step, "to") - 1),
+                                _ => {
+                                    let scale: neurons::tensor::Scale = std::sync::Arc::new(|_x| 1.0);
+                                    n2.loopback(usize_of(step, "outof") - 1, usize_of(step, "into") - 1, usize_of(step, "iterations"), scale, bool_of(step, "inskips"))
+                                }
+                            }
+                        }
+                        n2
+                    });
+                    if let Ok(mut n2) = built {
+                        for (acc, pv) in eval["predict"].as_object().unwrap() {
+                            if acc == "multiply" {
+                                continue;
+                            }
+                            n2.set_accumulation(nets::accumulation("add"), nets::accumulation(acc));
+                            rep.checks += 1;
+                            if let Ok(y) = guarded(|| n2.predict(&xs)) {
+                                let den = pv["y"]["den"].as_i64().unwrap_or(1) as f32;
+                                let mut want: Vec<f32> = Vec::new();
+                                flat_json(&pv["y"]["data"], &mut want);
+                                let got = flat(&y);
+                                let bad = got.len() != want.len()
+                                    || got.iter().zip(want.iter()).any(|(g, w)| {
+                                        let e = (*w / den) * sc;
+                                        (*g - e).abs() > 1e-5 * e.abs()
+                                    });
+                                if bad {
+                                    rep.mismatch(prop, "prediction_of_the_scaled_network", &id, json!({"accumulation": acc, "scale": "2^-30", "observed": got.iter().map(|v| format!("{:e}", v)).collect::<Vec<_>>(),
+                                                                                                     "expected": want.iter().map(|w| format!("{:e}", (*w / den) * sc)).collect::<Vec<_>>()}), case);
+                                    break;
+                                }
+                            }
+                        }
+                    }
+                }
                 if mode == "loop" && case["steps"].as_array().map(|a| a.len()) == Some(1) {
                     // Overwrite accumulation without input skips == the real unrolled network with the same weights
                     let step = &case["steps"][0];
